@@ -164,7 +164,9 @@ func (c *checker) tipNode(requireMax bool) *ref.Node {
 			all = append([]*ref.Node{w.Tree.SharedTip}, all...)
 		}
 		for _, n := range all {
-			if n.Excluded() || !retainedNode(w, t, n) {
+			// a header the repository accepted (or made known) after the latest prune is held by its
+			// own answer, wherever it hangs
+			if n.Excluded() || (!retainedNode(w, t, n) && !(w.Pruned && n.Seq > w.SeqAtPrune)) {
 				continue
 			}
 			if len(best) == 0 || n.Work.Cmp(best[0].Work) > 0 {
